@@ -385,6 +385,14 @@ def ctor_table(tree):
         if a.vararg or a.posonlyargs or a.kwonlyargs:
             _fail(init, 'constructor signature')
         params = [x.arg for x in a.args][1:]
+        cb_default = []
+        if 'callbacks' in params:
+            allargs = [x.arg for x in a.args]
+            dmap = dict(zip(allargs[len(allargs) - len(a.defaults):], a.defaults))
+            d = dmap.get('callbacks')
+            if not (isinstance(d, ast.List) and all(isinstance(e, ast.Constant) and isinstance(e.value, str) for e in d.elts)):
+                _fail(init, 'class %s: default of `callbacks` is not a list of string literals' % cls.name)
+            cb_default = [e.value for e in d.elts]
         stored = []
         for n in init.body:
             if isinstance(n, ast.Assign) and len(n.targets) == 1 and isinstance(n.targets[0], ast.Attribute) \
@@ -407,9 +415,9 @@ def ctor_table(tree):
                 # forwarded = passed under the same name with the parameter itself as value
                 if isinstance(kw.value, ast.Name) and kw.value.id == kw.arg and kw.arg in params:
                     forwarded.append(kw.arg)
-        out.append('{| c_class := %s; c_base := %s; c_params := %s; c_forwarded := %s; c_stored := %s |}' % (
+        out.append('{| c_class := %s; c_base := %s; c_params := %s; c_forwarded := %s; c_stored := %s; c_cb_default := %s |}' % (
             coq_str(cls.name), coq_str(bases[0] if bases else ''), coq_list(map(coq_str, params)),
-            coq_list(map(coq_str, forwarded)), coq_list(map(coq_str, stored))))
+            coq_list(map(coq_str, forwarded)), coq_list(map(coq_str, stored)), coq_list(map(coq_str, cb_default))))
     if len(out) < 2:
         raise Unsupported('model classes not found')
     return out
@@ -440,7 +448,43 @@ def fit_calls_pirls_once(gam_cls):
     return True
 
 
+STUB = """(* GENERATED STUB: translator/skel_c20.py refused today's source (fail-closed):
+   %s
+   The empty skeleton below makes every theorem of Props/C20.v about the loop fail to re-check. *)
+From Coq Require Import List String.
+From PG Require Import Model.Loop.
+Import ListNotations.
+Open Scope string_scope.
+Definition Gen_pirls_body : list sstmt := [].
+Definition Gen_pirls_post : list sstmt := [].
+Definition Gen_pirls : prog := {| p_body := []; p_post := []; p_start := {| d_guard := HStart; d_call := HStart |}; p_end := {| d_guard := HEnd; d_call := HEnd |} |}.
+Definition Gen_builtins : list builtin := [].
+Definition Gen_ctors : list ctor := [].
+Definition Gen_max_iter_constraint : string := "".
+Definition Gen_max_iter_dtype : string := "".
+"""
+
+
+def write_if_changed(out, text):
+    os.makedirs(os.path.dirname(out), exist_ok=True)
+    old = open(out).read() if os.path.exists(out) else None
+    if old != text:          # keep the timestamp when nothing changed so that make does not rebuild
+        with open(out, 'w') as f:
+            f.write(text)
+
+
 def generate(repo, coqdir):
+    out = os.path.join(coqdir, 'Gen', 'C20Skeleton.v')
+    try:
+        text = generate_text(repo)
+    except Exception as e:
+        write_if_changed(out, STUB % str(e).replace('*)', '* )').replace('(*', '( *'))
+        raise
+    write_if_changed(out, text)
+    return out
+
+
+def generate_text(repo):
     pg = parse(repo, 'pygam.py')
     cbt = parse(repo, 'callbacks.py')
     gam = find_class(pg, 'GAM')
@@ -470,14 +514,7 @@ def generate(repo, coqdir):
     L.append('')
     L.append('Definition Gen_max_iter_constraint : string := %s.' % coq_str(cons))
     L.append('Definition Gen_max_iter_dtype : string := %s.' % coq_str(dt))
-    text = '\n'.join(L) + '\n'
-    out = os.path.join(coqdir, 'Gen', 'C20Skeleton.v')
-    os.makedirs(os.path.dirname(out), exist_ok=True)
-    old = open(out).read() if os.path.exists(out) else None
-    if old != text:          # keep the timestamp when nothing changed so that make does not rebuild
-        with open(out, 'w') as f:
-            f.write(text)
-    return out
+    return '\n'.join(L) + '\n'
 
 
 if __name__ == '__main__':
